@@ -20,9 +20,9 @@
      PROVED   EKF / UKF (non-negative centre weight) / PF covariances are symmetric PSD, every
               dimension, every (nonlinear) system, every run length
      PROVED   a run is the fold of the one-step map
-   Not proved here (T2 of DESIGN.md): that the UKF with both repairs equals the Kalman filter in
-   every dimension -- the repaired variant is in the model (ukf_forward_gen true true) and is
-   compared with the Kalman filter by the correspondence harness only. *)
+     PROVED   the UKF with both repairs (columns of the factor; Pxy from the second sigma set:
+              ukf_forward_gen true true) IS the Kalman filter on every linear system, every
+              dimension, every k > -n, any factor L L^T = M *)
 From Coq Require Import Reals List ZArith.
 From PV Require Import Base.Num Base.Mat Model.Filter Proofs.Filter.
 Import ListNotations.
@@ -95,6 +95,20 @@ Theorem C13_ukf_sigma_points_witness :
 Proof. exact ukf_witness2_values. Qed.
 Theorem C13_ukf_predict_linear_is_kf_predict_refuted : ~ ukf_predict_linear_is_kf_predict.
 Proof. exact ukf_predict_linear_is_kf_predict_refuted. Qed.
+
+(* with both repairs -- sigma points = mean +- COLUMNS of the factor, Pxy built from the deviations of
+   the second sigma set -- the UKF step is the Kalman step: every dimension, every k > -n, every
+   factor oracle with L L^T = M (lower Cholesky included: cholesky_ok_factor_ok) *)
+Theorem C13_ukf_repaired_linear_is_kf :
+  forall (n m p : nat) (pinv msqrt : matR -> matR) (A B C D : matR) (c1 c2 : list R)
+         (Q Rm : matR) (x y u : list R) (P : matR) (k : R),
+  pinv_ok m pinv -> factor_ok n msqrt ->
+  wf n n A -> wf n p B -> wf m n C -> wf m p D -> length c1 = n -> length c2 = m ->
+  SPD n Q -> SPD m Rm -> SPD n P -> length x = n -> length u = p ->
+  0 < IZR (Z.of_nat n) + k ->
+  ukf_forward_gen pinv msqrt true true (lin_system A B C D c1 c2) Q Rm x y u P k =
+  Some (kf_step pinv A B C D c1 c2 Q Rm x y u P).
+Proof. exact ukf_repaired_linear_is_kf. Qed.
 
 (* covariance validity whenever the centre weight k/(n+k) is non-negative: every dimension, every
    system, rows or columns; the call returns (no assert fails) *)
@@ -176,6 +190,7 @@ Print Assumptions C13_ukf_linear_is_kf_refuted.
 Print Assumptions C13_ukf_linear_witness.
 Print Assumptions C13_ukf_sigma_points_witness.
 Print Assumptions C13_ukf_predict_linear_is_kf_predict_refuted.
+Print Assumptions C13_ukf_repaired_linear_is_kf.
 Print Assumptions C13_ukf_cov_symmetric_psd.
 Print Assumptions C13_pf_cov_symmetric_psd.
 Print Assumptions C13_pf_weights_normalised.
